@@ -1225,7 +1225,11 @@ impl ValueTable {
 		assert_eq!(at, 1);
 		let log = log.drain();
 		let change = log.local_values_changes(self.id).expect("entry written above");
-		for (at, (_rec_id, entry)) in change.map.iter() {
+		// Highest slot first. The table header (slot 0) carries the fill mark that makes the table
+		// count as initialised: it is written last, after the entry it announces.
+		let mut slots: Vec<_> = change.map.iter().collect();
+		slots.sort_by_key(|(at, _)| std::cmp::Reverse(**at));
+		for (at, (_rec_id, entry)) in slots {
 			self.file.write_at(entry.as_slice(), *at * (self.entry_size as u64))?;
 		}
 		Ok(())
